@@ -52,6 +52,7 @@ func propC02(w *World, r *Run) {
 	ruleComposedInMemory(w, r, "C02.e")
 	ruleComposedSQL(w, r, "C02.e")
 	ruleNewKeepsConfig(w, r, "C02.f")
+	ruleAdapter(w, r, "C02.g")
 }
 
 func propC03(w *World, r *Run) {
@@ -70,6 +71,7 @@ func propC03(w *World, r *Run) {
 	ruleAdapter(w, r, "C03.f")
 	ruleNoDetachedAnswer(w, r, "C03.g")
 	ruleImplicitPanic(w, r, "C03.h", reachableModule(w, []*ssa.Function{w.fn(fnUpdate)}))
+	ruleStoredBytesNotRecycled(w, r, "C03.i")
 }
 
 func propC04(w *World, r *Run) {
@@ -87,6 +89,7 @@ func propC04(w *World, r *Run) {
 	ruleStoredBytesNotRecycled(w, r, "C04.g")
 	ruleClientReadsWholeBody(w, r, "C04.h")
 	ruleDistributorAs(w, r, "C15.a", "C04.j")
+	ruleWitnessBytesImmutable(w, r, "C04.k")
 }
 
 func propC07(w *World, r *Run) {
@@ -107,6 +110,7 @@ func propC07(w *World, r *Run) {
 	ruleNoFalseSuccessAtEndpoint(w, r, a, "C07.h")
 	ruleNoMemoisedStorageError(w, r, "C07.i")
 	ruleRowsClosed(w, r, "C07.j")
+	ruleLocksReleased(w, r, "C07.k")
 }
 
 func propC08(w *World, r *Run) {
@@ -125,6 +129,8 @@ func propC08(w *World, r *Run) {
 	ruleStrictInteger(w, r, "C08.f")
 	ruleWitnessBytesImmutable(w, r, "C08.g")
 	ruleBastionGetsAllLogs(w, r, "C08.h")
+	ruleServeUnderCallersContext(w, r, "C08.i")
+	ruleCompareAndSet(w, r, "C08.j")
 }
 
 func propC09(w *World, r *Run) {
@@ -156,6 +162,7 @@ func propC20(w *World, r *Run) {
 	ruleCommitBeforeAck(w, r, "C20.f")
 	ruleCounterStateLocked(w, r, "C20.g")
 	ruleUpdateNotReentered(w, r, "C20.h")
+	ruleAdapter(w, r, "C20.j")
 	ruleVerdictStatusAfterUpdate(w, r, "C20.i")
 }
 
@@ -200,6 +207,7 @@ func propC06(w *World, r *Run) {
 	ruleDBFileOnlyThroughSQL(w, r, "C06.f")
 	ruleNoFalseSuccessAtEndpoint(w, r, analyseUpdate(w, r), "C06.g")
 	ruleSQLStoreReachesMain(w, r, "C06.h")
+	ruleNoFallbackToMemory(w, r, "C06.i")
 }
 
 func init() {
@@ -225,6 +233,7 @@ func propC10(w *World, r *Run) {
 	rulePooledBytesDontEscape(w, r, "C10.j")
 	ruleNotFoundExact(w, r, "C10.k")
 	ruleVerdictStatusAfterUpdate(w, r, "C10.l")
+	ruleLimiterBurstIsRate(w, r, "C10.m")
 }
 
 func propC11(w *World, r *Run) {
@@ -239,6 +248,7 @@ func propC11(w *World, r *Run) {
 	ruleServeHTTP(w, r, "C11.g", "C11.g", "C11.g")
 	ruleEndpointHygiene(w, r, "C11.g")
 	ruleProofFraming(w, r, "C11.h")
+	ruleDecodeIntoSizedBuffer(w, r, "C11.i", reachableModule(w, []*ssa.Function{w.fn(fnUnmarshal), w.fn(fnParseBody)}))
 }
 
 func init() {
@@ -256,6 +266,7 @@ func propC13(w *World, r *Run) {
 	ruleNeverGivesUp(w, r, "C13.i")
 	rulePooledBytesDontEscape(w, r, "C13.j")
 	ruleSizeNarrowing(w, r, "C13.k")
+	ruleSumDBConstants(w, r) // reported under the tile rules' own ids (C18.*): each proof attempt reads its tiles from the log, one result per requested tile
 }
 
 func init() {
@@ -271,6 +282,7 @@ func propC15(w *World, r *Run) {
 	ruleImmut(w, r, "C15.a", immutCoreFields(w, r, "C15.a", "Distributor"))
 	ruleDistributorGetsAllLogs(w, r, "C15.f")
 	ruleNoDerefOfFailedResult(w, r, "C15.g", fnDistOnce)
+	ruleAdapter(w, r, "C15.h")
 }
 
 func propC16(w *World, r *Run) {
@@ -329,6 +341,7 @@ func propC14(w *World, r *Run) {
 	ruleReadLimitsConstant(w, r, "C14.f")
 	ruleRekorProofRequest(w, r, "C14.g")
 	ruleFeedLogFailsOnlyOnConfig(w, r, "C14.h")
+	ruleFeederPanics(w, r, "C14.i")
 }
 
 func init() {
@@ -349,7 +362,8 @@ func propC17(w *World, r *Run) {
 	ruleNewLogShape(w, r, "C17.c")
 	ruleNewKeepsConfig(w, r, "C17.d")
 	ruleYAMLStrictness(w, r, "C17.a")
-	ruleGlobalContainers(w, r, "C17.e", []string{pConfig, pOmni, pFeeder, pBastion, pRest})
+	ruleGlobalContainers(w, r, "C17.e", allModulePkgs(w))
+	ruleNoNilMapWriteInMain(w, r, "C17.h")
 	ruleConfigSliceNotMutated(w, r, "C17.f")
 	ruleServeHTTP(w, r, "C17.g", "C17.g", "C17.g") // a configured log's submissions reach the witness: the endpoint pronounces no verdict of its own
 }
@@ -373,6 +387,7 @@ func propC19(w *World, r *Run) {
 	reach := ruleExplicitPanic(w, r, "C19.a")
 	ruleImplicitPanic(w, r, "C19.b", reach)
 	ruleDecodeIntoSizedBuffer(w, r, "C19.n", reach)
+	ruleNoBlockingSendFromLoopGoroutines(w, r, "C19.o")
 	ruleSumDBRaw(w, r, "C19.b")
 	ruleSizeNarrowing(w, r, "C19.c")
 	ruleServeHTTP(w, r, "C19.d", "C19.d", "C19.d")
